@@ -24,6 +24,7 @@ EXPLANATION = (
     "since it vanishes along the simplex. This covers all 6 classes x 2 modes including the Wasserstein loops (emd2 as an opaque "
     "function with its dual potentials) and the MMD zero-distance masks; all n and K at once (sizes are symbols).")
 from ..e8_gemini import ASSUMPTIONS as E8_ASSUMPTIONS
+ADOPT = [("C13", ["C13-d"], "a score (and its gradient) is a function of the predictions and the affinity alone: a value cached on the objective and reused on the evidence of identity or shape makes it depend on earlier calls")]
 ASSUMPTIONS = ["numpy broadcasting/reduction shape semantics as encoded in gcverif/e3_numpy.py",
                "ot.emd2(a, b, M, log=True) returns (cost, {'u': dual of a, 'v': dual of b})"] + E8_ASSUMPTIONS
 
